@@ -1916,7 +1916,10 @@ def c17_caps(ctx, segs):
     ex.run_all(setup, body, on_path)
 
 
-for _nm, _sg in (("sym2", [2]), ("sym3", [3]), ("chown_sym2", [b"cap_chown", 2]), ("two", [b"=e ", 2])):
+for _nm, _sg in (("sym2", [2]), ("sym3", [3]), ("chown_sym2", [b"cap_chown", 2]), ("two", [b"=e ", 2]),
+                 # literal multi-byte characters before / after the operator (byte offsets and character counts differ)
+                 ("nonascii_a", ["\u00e9=p".encode()]), ("nonascii_b", ["cap_chown,\u00fc+ep".encode()]), ("nonascii_c", ["\u20ac+i".encode()]), ("nonascii_d", ["=e cap_kill\u00df-e".encode()]),
+                 ("nonascii_e", ["cap_chown=\u00e9".encode()])):
     HARNESSES["c17_caps_" + _nm] = (lambda sg: (lambda ctx: c17_caps(ctx, sg)))(_sg)
 
 
@@ -2592,9 +2595,9 @@ def replay_c12(ctx, fl):
     if fl.get("kind") == "c12positive":
         k = fl["fkind"]
         pk = RB.files_package([b"/", b"/xy/"] if fl.get("pre") else [b"/"],
-                              [(0, b"xy", {"regular": 0o104751, "dir": 0o041750, "symlink": 0o120777}[k], b"lk" if k == "symlink" else b"", b"AB" if k == "regular" else b"")])
+                              [(0, b"xy", {"regular": 0o104773, "dir": 0o041773, "symlink": 0o120777}[k], b"lk" if k == "symlink" else b"", b"AB" if k == "regular" else b"")])
         ans = ctx.native.ask("extract", pk.hex())
-        want = {"regular": "xy:f:4751:4142", "dir": "xy:d:1750", "symlink": "xy:l:lk"}[k]
+        want = {"regular": "xy:f:4773:4142", "dir": "xy:d:1773", "symlink": "xy:l:lk"}[k]      # group/other write bits: a umask (022 in the helper) must not survive
         return not (ans.startswith("ok") and want in ans), "real crate: a %s entry /xy extracted into a scratch directory -> %s (expected %s)" % (k, ans[:120], want)
     modes = {"regular": 0o100644, "dir": 0o040700, "symlink": 0o120777, "special": 0o020644}
     d = bytes.fromhex(fl["dir"])
